@@ -224,7 +224,8 @@ def run(ctx):
                 'up to 2^40 / eighths / arbitrary doubles, interior multiplicities 1..p; findspan at every breakpoint, its two adjacent doubles, '
                 'midpoints, random points; refine with random new knots and uniform; __eq__ on perturbed copies incl. a directed search for an '
                 'asymmetric pair; Spline.derivative; call histories (refine()/copy() reuse of KnotVector caches, Spline.derivative() after in-place and '
-                'rebinding coefficient changes), each answer against the model of the current data.  non-trivial = at least 2 spans.' % (400 if quick else 2000))
+                'rebinding coefficient changes), each answer against the model of the current data; support() / support(None) / support(j) for every '
+                'j incl. 0; Spline.derivative with int64/int32/float32 coefficient arrays; knot arrays stored as int64/int32/float32.  non-trivial = at least 2 spans.' % (400 if quick else 2000))
 
     # ------------------------------------------------------------------ make_knots
     S = Stream(ctx, 'drv_c19')
@@ -333,6 +334,25 @@ def run(ctx):
                     return 'mesh_support_idx_all()[%d] differs from mesh_support_idx' % j
             return None
         S.add('q %d %s' % (p, kvd), q, 'queries', q_oracle, {'kv': k.tolist(), 'p': p})
+
+        def supp_line(KVo):
+            a = KVo.support(); b = KVo.support(None)
+            if tuple(float(x) for x in a) != tuple(float(x) for x in b):
+                return 'support()-vs-support(None)-mismatch'
+            sj = [KVo.support(j) for j in range(KVo.numdofs)]
+            return 'all=%s,%s j=%s' % (frac(a[0]), frac(a[1]), plist(sj, lambda e: '%s,%s' % (frac(e[0]), frac(e[1]))))
+
+        def supp_oracle(k=k, p=p):
+            K2 = bspline.KnotVector(k.copy(), p)
+            if tuple(K2.support()) != (k[0], k[-1]) or tuple(K2.support(None)) != (k[0], k[-1]):
+                return 'support() is not (kv[0], kv[-1])'
+            for j in range(K2.numdofs):
+                if tuple(K2.support(j)) != (k[j], k[j + p + 1]):
+                    return 'support(%d) = %s, the knots of B-spline %d span (%r, %r)' % (j, tuple(float(x) for x in K2.support(j)), j, float(k[j]), float(k[j + p + 1]))
+                if tuple(K2.support_idx(j)) != (j, j + p + 1):
+                    return 'support_idx(%d) != (j, j+p+1)' % j
+            return None
+        S.add('supp %d %s' % (p, kvd), lambda: supp_line(KV), 'support', supp_oracle, {'kv': k.tolist(), 'p': p})
 
         us = points_for(rng, k, p)
         if len(us) > 60:
@@ -449,7 +469,114 @@ def run(ctx):
                 S.add('dspl %d %s %s 0 0' % (p, kvd, plist(c, frac)), 'err-' + type(ex).__name__, 'spline-derivative', dspl_oracle,
                       {'kv': k.tolist(), 'p': p, 'coeffs': c.tolist()})
             ctx.count('Spline.derivative cases')
+            # the same coefficient values stored with an integer / float32 dtype (Spline keeps the array it is given)
+            if np.all(c == np.round(c)):
+                cx = c; cv = c.astype(np.int64 if rng.integers(0, 2) else np.int32)
+            else:
+                # (float32 coefficients are not used here: numpy computes p/dk*diff(c) in single precision for float32 data, which is
+                # the precision the caller chose; the model's bound is for double precision)
+                cx = np.round(c * 4); cv = cx.astype(np.int64)
+
+            def dspl_dt_oracle(k=k, p=p, cx=cx, cv=cv):
+                K2 = bspline.KnotVector(k.copy(), p)
+                d1 = spline.Spline(K2, cv).derivative(); d2 = spline.Spline(K2, cx.copy()).derivative()
+                a1 = np.asarray(d1.coeffs, dtype=float); a2 = np.asarray(d2.coeffs, dtype=float)
+                if a1.shape != a2.shape or np.max(np.abs(a1 - a2)) > 1e-9 * (np.max(np.abs(a2)) + 1e-300):
+                    return ('Spline.derivative() with %s coefficients gives %s, with the same values as float64 %s'
+                            % (cv.dtype, a1[:5].tolist(), a2[:5].tolist()))
+                return None
+            try:
+                dv = spline.Spline(KV, cv).derivative()
+                S.add('dspl %d %s %s %s %s' % (p, kvd, plist(cx, frac), plist(np.asarray(dv.coeffs, dtype=float), frac), plist(usd, frac)),
+                      'kv=%s p=%d vals=ok ident=ok' % (plist(dv.kv.kv, frac), dv.kv.p), 'spline-derivative[coeff-dtype]', dspl_dt_oracle,
+                      {'kv': k.tolist(), 'p': p, 'coeffs': cx.tolist(), 'dtype': str(cv.dtype)})
+            except Exception as ex:
+                S.add('dspl %d %s %s 0 0' % (p, kvd, plist(cx, frac)), 'err-' + type(ex).__name__, 'spline-derivative[coeff-dtype]', dspl_dt_oracle,
+                      {'kv': k.tolist(), 'p': p, 'coeffs': cx.tolist(), 'dtype': str(cv.dtype)})
+            ctx.count('Spline.derivative coefficient dtype=' + str(cv.dtype))
     ctx.sample({'queries': S.req[-3][:200]})
+
+    # ------------------------------------------------------------------ knot arrays with an integer / float32 dtype
+    # integer-valued (resp. multiples of 1/8) knots stored as int64 / int32 / float32: every query that does not go through the
+    # typed Cython kernel must give the answers of the float64 knot vector with the same values
+    def dtype_knots_case(kvals, p, dt):
+        karr = kvals.astype(dt)
+        assert np.array_equal(karr.astype(float), kvals)
+        tag = '[knots %s]' % np.dtype(dt).name
+        info = {'kv': kvals.tolist(), 'p': p, 'knot_dtype': np.dtype(dt).name}
+        kvd = plist(kvals, frac)
+        mk = lambda: bspline.KnotVector(karr.copy(), p)
+        ref = lambda: bspline.KnotVector(kvals.copy(), p)
+
+        def same(fn, what):
+            def f():
+                a = fn(mk()); b = fn(ref())
+                if a != b:
+                    return '%s with %s knots differs from the float64 knot vector with the same values' % (what, np.dtype(dt).name)
+                return None
+            return f
+        S.add('q %d %s' % (p, kvd), lambda: q_line(mk()), 'queries' + tag, same(q_line, 'mesh/support queries'), info)
+        S.add('supp %d %s' % (p, kvd), lambda: supp_line_g(mk()), 'support' + tag, same(supp_line_g, 'support(j)'), info)
+        def grev_line(KVo):
+            g = np.asarray(KVo.greville(), dtype=float)
+            return 'grev %d %s %s' % (p, kvd, plist(g, frac)), 'n=%d vals=ok dom=ok' % len(g)
+        def refu_line(KVo):
+            r = KVo.refine()
+            return 'refu %s %s' % (kvd, plist(np.asarray(r.kv, dtype=float), frac)), 'n=%d spans=%d vals=ok' % (len(r.kv), r.numspans)
+        mesh = np.unique(kvals)
+        new = np.concatenate((rng.choice(mesh, size=2), (mesh[:-1] + mesh[1:])[:2] / 2)).astype(float)
+        def refw_line(KVo):
+            r = KVo.refine(new)
+            return 'refw %s %s' % (kvd, plist(new, frac)), plist(np.asarray(r.kv, dtype=float), frac)
+        newi = rng.choice(mesh, size=3).astype(dt)
+        def refwi_line(KVo):
+            r = KVo.refine(newi)
+            return 'refw %s %s' % (kvd, plist(newi.astype(float), frac)), plist(np.asarray(r.kv, dtype=float), frac)
+        lines = [(grev_line, 'greville'), (refu_line, 'refine-uniform'), (refw_line, 'refine'), (refwi_line, 'refine')]
+        if p >= 1 and dt is not np.float32:      # float32 knots: derivative coefficients are legitimately single precision
+            cc = rng.integers(-8, 9, size=len(kvals) - p - 1)
+            ccv = cc.astype(np.int64) if rng.integers(0, 2) else cc.astype(float)
+            usd = points_for(rng, kvals, p, nrand=2)[:8]
+            def dspl_line(KVo):
+                d = spline.Spline(KVo, ccv.copy()).derivative()
+                return ('dspl %d %s %s %s %s' % (p, kvd, plist(cc.astype(float), frac), plist(np.asarray(d.coeffs, dtype=float), frac), plist(usd, frac)),
+                        'kv=%s p=%d vals=ok ident=ok' % (plist(np.asarray(d.kv.kv, dtype=float), frac), d.kv.p))
+            lines.append((dspl_line, 'spline-derivative'))
+
+            def dspl_ref_oracle():
+                # all-float64 reference: same knot and coefficient values
+                d1 = spline.Spline(mk(), ccv.copy()).derivative()
+                d2 = spline.Spline(ref(), cc.astype(float)).derivative()
+                a1 = np.asarray(d1.coeffs, dtype=float); a2 = np.asarray(d2.coeffs, dtype=float)
+                if a1.shape != a2.shape or np.max(np.abs(a1 - a2)) > 1e-9 * (np.max(np.abs(a2)) + 1e-300):
+                    return ('Spline.derivative() with %s knots and %s coefficients gives %s, with the same values as float64 %s'
+                            % (np.dtype(dt).name, ccv.dtype, a1[:5].tolist(), a2[:5].tolist()))
+                return None
+        for fn, kind in lines:
+            def orc(fn=fn, kind=kind):
+                try:
+                    a = fn(mk())
+                except Exception as ex:
+                    a = 'raised ' + type(ex).__name__
+                b = fn(ref())
+                if a != b:
+                    return '%s with %s knots differs from the float64 knot vector with the same values' % (kind, np.dtype(dt).name)
+                return None
+            try:
+                r_, e_ = fn(mk())
+            except AssertionError:
+                r_, e_ = 'q 0 0', 'err-assertion'
+            except Exception as ex:
+                r_, e_ = 'q 0 0', 'err-' + type(ex).__name__
+            S.add(r_, e_, kind + tag, dspl_ref_oracle if kind == 'spline-derivative' else orc, info)
+        ctx.count('knot dtype=' + np.dtype(dt).name)
+
+    def supp_line_g(KVo):
+        a = KVo.support(); b = KVo.support(None)
+        if tuple(float(x) for x in a) != tuple(float(x) for x in b):
+            return 'support()-vs-support(None)-mismatch'
+        sj = [KVo.support(j) for j in range(KVo.numdofs)]
+        return 'all=%s,%s j=%s' % (frac(a[0]), frac(a[1]), plist(sj, lambda e: '%s,%s' % (frac(e[0]), frac(e[1]))))
 
     # ------------------------------------------------------------------ call histories (caching / aliasing)
     # construct, query, mutate, query again: every answer of the long-lived object is compared with the model evaluated on the
@@ -567,6 +694,16 @@ def run(ctx):
     ctx.extra['observation_stale_mesh_cache_after_inplace_knot_edit'] = (
         '%d of %d knot vectors: KnotVector does not invalidate _mesh/_knots_to_mesh when kv.kv is edited in place after a query '
         '(design observation, not a violation: no pyiga code edits a knot array in place)' % (stale_obs, nhist))
+
+    for _ in range(100 if quick else 1200):
+        p_ = int(rng.integers(0, 6)); n_ = int(rng.integers(1, 7))
+        brk = np.concatenate(([0.0], np.cumsum(rng.integers(1, 5, size=n_).astype(float)))) + float(rng.integers(-3, 4))
+        mult_ = [int(rng.integers(1, max(p_, 1) + 1)) for _ in range(n_ - 1)]
+        kvals = np.concatenate((np.repeat(brk[0], p_ + 1), np.repeat(brk[1:-1], mult_), np.repeat(brk[-1], p_ + 1)))
+        dt = [np.int64, np.int32, np.float32][int(rng.integers(0, 3))]
+        if dt is np.float32:
+            kvals = kvals / 8.0
+        dtype_knots_case(np.ascontiguousarray(kvals, dtype=float), p_, dt)
 
     # ------------------------------------------------------------------ __eq__
     asym = None
